@@ -33,6 +33,7 @@ Accept(e, c) ==
     [] e.op = "default" -> PropDefault(c, e)
     [] e.op = "deref" -> PropDeref(c, e)
     [] e.op = "into" -> PropInto(c, e)
+    [] e.op = "union" -> PropUnion(c, e)
     [] OTHER -> FALSE
 
 TraceInit == l = 1 /\ bad = <<>> /\ learned = <<>>
